@@ -19,7 +19,7 @@ func Spec_Rank(dmp *DecisionMakingParams, pref AlternativeWeightFunction) *Alter
 	for i, alternative := range dmp.ConsideredAlternatives {
 		results[i] = *pref(&alternative)
 	}
-	return results.Ranking()
+	return results.Spec_Ranking()
 }
 
 func Spec_SingleWeight(criterion *Criterion, value Weight) WeightType {
@@ -36,6 +36,6 @@ func Spec_ExtractWeights(dm *DecisionMaker) Weights {
 		panic(fmt.Errorf("weights not found"))
 	}
 	weightsParsed := make(Weights)
-	utils.DecodeToStruct(weights, &weightsParsed)
+	utils.Spec_DecodeToStruct(weights, &weightsParsed)
 	return weightsParsed
 }
